@@ -17,14 +17,33 @@ RULE = ('exhaustive box: every string over {A,C,-} up to length 5 (thorough; see
         'ints, floats, bool, tuple/list of chars, bytes, object(), iterator: ==, !=, reflected ==, and basket in/count/index/== [..]; HISTORIES (300 + 300 in quick): several calls on one BioSeq / one BioBasket plus an outside '
         'sequence - repeated and fresh-object calls, gap-aware call / length-preserving edit (item, slice, reverse, translate, '
         '.data) / same call again, other gap strings in between, mutation of results of not-in-place calls, b[i] = b[k] and '
-        'b[i] = x followed by edits through one holder, state compared after every step')
+        'b[i] = x followed by edits through one holder, state compared after every step; '
+        'OBJECT STORES (round 6; 10 directed + 260 random in quick): several BioSeq objects addressed by handle, edits that leave residues '
+        'that are not upper case (item/slice assignment, +=, .data, translate, lower/upper/swapcase, replace, center/ljust/rjust with any '
+        'fill, strip family; also through a basket: seqs[:, j] = x, seqs.str.m(...), seqs.reverse()), duplication steps (copy.copy, '
+        'copy.deepcopy, BioSeq.copy, pickle round trip, BioBasket.copy()[k]) anywhere in the history, queries (len, ==, seq == seq, '
+        'count/find/rfind/index/rindex/startswith/endswith with start/end, isupper/islower, gc, countall); after EVERY step the (data, id) '
+        'of EVERY object is compared with the model and with the same history on plain Python strs, and (Python only) a battery of all '
+        'query methods of the .str namespace + gc + countall(prob) is asked of every object and compared with str on its own residue '
+        'string; at the end every transforming .str method is tried on every object (others must not move); STR CALLS: 150 raw-data call '
+        'sequences and 40 (thorough: all 520) boxes {A,a,-}^<=3 x sub {A,a,-}^<=2 x (start, end) in {None,-4..4}^2 x the seven search '
+        'methods against the Gallina list functions; FEATURE TYPES: seq[name], seq.sl(gap=)[name], seqs[:, name], seqs[name], seqs[i, name] '
+        'with feature lists whose types contain one another (gene/pseudogene, RNA/mRNA/tRNA, exon/exon_junction, empty type, type None), '
+        'any letter case, absent names; basket-level .str: the kind of result (basket itself / list) must be the same for 0, 1 and '
+        'several sequences and a returned basket must be chainable')
 TRUSTED = ['CPython 3.12 str/list subscripting as modelled in coq/lib/C04_PySlice.v (PySlice_Unpack/AdjustIndices, list_subscript, '
            'list_ass_subscript), compared with the interpreter on every case',
            'the ~35 str methods themselves are CPython\'s; only sugar\'s wrappers around them are proved (parametrically) and '
            'compared Python-against-Python',
            'modelled: BioSeq.__init__ (upper), __len__/__eq__/__add__/__iadd__/__radd__/__setitem__, _getitem int/slice path with '
            'nogaps/adj, gc, countall; BioBasket._getitem/__setitem__; _BioSeqStr/_BioBasketStr delegation (sugar/core/seq.py)',
-           'collections.Counter modelled as a finite map byte -> nat with pointwise addition']
+           'collections.Counter modelled as a finite map byte -> nat with pointwise addition',
+           'round 6: str.count/find/rfind/index/rindex/startswith/endswith (with start/end), replace (with count), lower/upper/swapcase, '
+           'isupper/islower, strip/lstrip/rstrip, center/ljust/rjust are modelled as Gallina list functions (ASCII) and compared with '
+           'CPython through the BioSeq.str wrappers on every case; the remaining .str methods stay parametric',
+           'copy.copy / copy.deepcopy / pickle / BioSeq.copy / BioBasket.copy are modelled as value duplication (DDup); that the Python '
+           'objects really are independent is what the object-store stream tests',
+           'FeatureList.get (sugar/core/fts.py, outside the anchored file) is modelled as ft_get for str arguments only']
 ASSUMPTIONS = ['Python str restricted to ASCII code points (str.upper modelled on ASCII); lengths below 2^63',
                'metadata other than the id is not modelled (slices share the parent meta object)',
                'gap-aware slicing claimed for contiguous slices (step None or 1) only']
@@ -39,8 +58,9 @@ MODELLED_FUNCS = {'sugar/core/seq.py': [
     '_BioSeqStr.upper', '_BioBasketStr.__getattr__',
     'BioSeq.__init__', 'BioSeq.__eq__', 'BioSeq.__len__', 'BioSeq.__setitem__', 'BioSeq.__add__', 'BioSeq.__iadd__',
     'BioSeq.__radd__', 'BioSeq.str', 'BioSeq.gc', 'BioSeq.__getitem__', 'BioSeq.sl', 'BioSeq._getitem', 'BioSeq.reverse',
-    'BioSeq.countall', 'BioBasket.__getitem__', 'BioBasket.sl', 'BioBasket._getitem', 'BioBasket.__setitem__',
-    'BioBasket.countall']}
+    'BioSeq.countall', 'BioSeq.copy', 'BioBasket.copy', 'BioBasket.__getitem__', 'BioBasket.sl', 'BioBasket._getitem', 'BioBasket.__setitem__',
+    'BioBasket.countall'],
+    'sugar/core/fts.py': ['FeatureList.get']}
 
 SMALL = 'AC-'
 VALS = [None] + list(range(-7, 8))
@@ -123,6 +143,14 @@ def model_term(case):
         t = 'OHist %s %s' % (coq_bs(c['s']), coq_list([coq_hstep(h) for h in c['steps']]))
     elif op == 'bhist':
         t = 'BHist %s %s %s' % (coq_strs(c['b']), coq_bs(c['x']), coq_list([coq_bstep(h) for h in c['steps']]))
+    elif op == 'store':
+        t = 'OStore %s %s' % (coq_strs(c['ss']), coq_list([coq_dstep(h) for h in c['steps']]))
+    elif op == 'strbox':
+        t = 'OStrBox %s %s %s' % (coq_bs(c['d']), coq_bs(c['t']), coq_zs(c['bounds']))
+    elif op == 'ft':
+        t = 'OFt %s %s %s %s' % (coq_bs(c['s']), coq_gap(c['gap']), coq_fts(c['fts']), coq_bs(c['name']))
+    elif op == 'bft':
+        t = 'BFt %s %s %s %s' % (coq_strs(c['b']), coq_gap(c['gap']), coq_fts(c['fts']), coq_bs(c['name']))
     else:
         raise ValueError(op)
     return 'out (run_C04 (%s))' % t
@@ -219,8 +247,87 @@ def coq_bstep(h):
     return {'xreverse': 'BHXReverse', 'upperall': 'BHUpperAll', 'count': 'BHCount'}[k]
 
 
+def coq_byte(ch):
+    assert len(ch) == 1 and ord(ch) < 256
+    return 'x%02x' % ord(ch)
+
+
+def coq_optz(v):
+    return coq_opt(v, coq_z)
+
+
+def coq_handle(k):
+    assert isinstance(k, int) and not isinstance(k, bool) and 0 <= k < 4000
+    return '%d%%nat' % k
+
+
+def coq_fts(fts):
+    return coq_list(['(%s, (%s, %s))' % (coq_opt(t, coq_bs), coq_z(a), coq_z(b)) for t, a, b in fts])
+
+
+def coq_edit(e):
+    k = e['e']
+    if k == 'set':
+        return '(ESet %s %s)' % (coq_ix(e['ix']), coq_bs(e['v']))
+    if k == 'iadd':
+        return '(EIadd %s)' % coq_bs(e['t'])
+    if k == 'data':
+        return '(EData %s)' % coq_bs(e['d'])
+    if k == 'trans':
+        return '(ETrans %s)' % coq_trans(e['m'])
+    if k == 'replace':
+        return '(EReplace %s %s %s)' % (coq_bs(e['old']), coq_bs(e['new']), coq_optz(e['cnt']))
+    if k in ('center', 'ljust', 'rjust'):
+        return '(%s %s %s)' % ({'center': 'ECenter', 'ljust': 'ELjust', 'rjust': 'ERjust'}[k], coq_z(e['w']), coq_opt(e['f'], coq_byte))
+    if k in ('strip', 'lstrip', 'rstrip'):
+        return '(%s %s)' % ({'strip': 'EStrip', 'lstrip': 'ELstrip', 'rstrip': 'ERstrip'}[k], coq_gap(e['cs']))
+    return {'reverse': 'EReverse', 'lower': 'ELower', 'upper': 'EUpper', 'swapcase': 'ESwapcase'}[k]
+
+
+QSEARCH = {'count': 'QCount', 'find': 'QFind', 'rfind': 'QRfind', 'index': 'QIndex', 'rindex': 'QRindex',
+           'startswith': 'QStartswith', 'endswith': 'QEndswith'}
+
+
+def coq_query(q):
+    k = q['q']
+    if k == 'eq':
+        return '(QEq %s)' % coq_bs(q['t'])
+    if k in QSEARCH:
+        return '(%s %s %s %s)' % (QSEARCH[k], coq_bs(q['t']), coq_optz(q['a']), coq_optz(q['b']))
+    return {'len': 'QLen', 'isupper': 'QIsupper', 'islower': 'QIslower', 'gc': 'QGc', 'countall': 'QCountall'}[k]
+
+
+DUPS = ('copy', 'deepcopy', 'method', 'pickle', 'basket')
+
+
+def coq_dstep(h):
+    k = h['k']
+    if k == 'dup':
+        assert h['how'] in DUPS
+        return '(DDup %s)' % coq_handle(h['o'])
+    if k == 'edit':
+        return '(DEdit %s %s)' % (coq_handle(h['o']), coq_edit(h['e']))
+    if k == 'query':
+        return '(DQuery %s %s)' % (coq_handle(h['o']), coq_query(h['q']))
+    if k == 'eqobj':
+        return '(DEqObj %s %s)' % (coq_handle(h['o']), coq_handle(h['j']))
+    if k == 'alledit':
+        return '(DAllEdit %s)' % coq_edit(h['e'])
+    return {'countall': 'DCountall'}[k]
+
+
+NO_SHRINK_KEYS = ('k', 'e', 'q', 'how')
+
+
 def split_model(case, m):
     return bool(m[0]), m[1]
+
+
+def agree(case, implval, modelval):
+    """Object-store histories carry Python-only observations (the query battery, notes) in a third slot."""
+    if case['op'] == 'store' and isinstance(implval, list):
+        return [r[:2] for r in implval] == modelval
+    return implval == modelval
 
 
 # ----------------------------------------------------------------------------- implementation driver
@@ -274,6 +381,16 @@ def impl(case):
         return _run_hist(case)
     if op == 'bhist':
         return _run_bhist(case)
+    if op == 'store':
+        return _run_store(case)
+    if op in ('ft', 'bft'):
+        return _run_ft(case)
+    if op == 'strbox':
+        seq = _raw(BioSeq, case['d'])
+        out = [[[_try(lambda: getattr(seq.str, name)(case['t'], *_bounds({'a': a, 'b': b}))) for b in case['bounds']]
+                for a in case['bounds']] for name in sorted(QSEARCH)]
+        assert seq.data == case['d'], 'a query changed the sequence'
+        return out
     if op == 'len':
         seq = _mkseq(case)
         for bad in (1.5, None, (0, 1), [0], b'0'):             # type confusion: same TypeError as str indexing
@@ -619,6 +736,19 @@ def spec(case, got):
         return _spec_hist(case, got)
     if op == 'bhist':
         return _spec_bhist(case, got)
+    if op == 'store':
+        return _spec_store(case, got)
+    if op in ('ft', 'bft'):
+        return _spec_ft(case, got)
+    if op == 'strbox':
+        d = case['d']
+        for name, rows in zip(sorted(QSEARCH), got):
+            for a, row in zip(case['bounds'], rows):
+                for b, g in zip(case['bounds'], row):
+                    exp = _try(lambda: getattr(d, name)(case['t'], a, b))
+                    if g != exp:
+                        return '%r.%s(%r, %r, %r): str gives %r, BioSeq.str gives %r' % (d, name, case['t'], a, b, exp, g)
+        return None
     if op in ('len', 'eq', 'eqseq', 'add', 'radd', 'iadd', 'set', 'gc') and isinstance(got, dict) and op != 'set':
         return 'raised %s' % got['e']
     if op == 'len':
@@ -921,6 +1051,362 @@ def _spec_bhist(case, got):
     return None
 
 
+# ----------------------------------------------------------------------------- object stores with duplicates
+
+def _bounds(q):
+    a, b = q.get('a'), q.get('b')
+    return () if a is None and b is None else (a,) if b is None else (a, b)
+
+
+def _edit_call(e):
+    """(method name, args) of the .str method behind a transforming edit, None for the other edits."""
+    k = e['e']
+    if k == 'trans':
+        return 'translate', (_table(e['m']),)
+    if k in ('lower', 'upper', 'swapcase'):
+        return k, ()
+    if k == 'replace':
+        return 'replace', (e['old'], e['new']) + (() if e['cnt'] is None else (e['cnt'],))
+    if k in ('center', 'ljust', 'rjust'):
+        return k, (e['w'],) + (() if e['f'] is None else (e['f'],))
+    if k in ('strip', 'lstrip', 'rstrip'):
+        return k, () if e['cs'] is None and e.get('omit') else (e['cs'],)
+    return None
+
+
+def _apply_edit(seq, e):
+    """The edit on a real BioSeq (in place)."""
+    k = e['e']
+    if k == 'set':
+        seq[py_ix(e['ix'])] = e['v']
+    elif k == 'iadd':
+        keep = seq
+        seq += e['t']
+        assert seq is keep, '+= must return the sequence itself'
+    elif k == 'data':
+        seq.data = e['d']
+    elif k == 'reverse':
+        assert seq.reverse() is seq, 'reverse() must return the sequence itself'
+    else:
+        name, args = _edit_call(e)
+        assert getattr(seq.str, name)(*args) is seq, '.str.%s must return the sequence it was called on' % name
+
+
+def _edit_str(cur, e):
+    """The same edit on a plain Python str (list for item assignment); exceptions propagate."""
+    k = e['e']
+    if k == 'set':
+        l = list(cur)
+        l[py_ix(e['ix'])] = e['v']
+        return ''.join(l)
+    if k == 'iadd':
+        return cur + e['t']
+    if k == 'data':
+        return e['d']
+    if k == 'reverse':
+        return cur[::-1]
+    name, args = _edit_call(e)
+    return getattr(cur, name)(*args)
+
+
+def _gc_pair(cur):
+    return _gc_expect(cur)
+
+
+def _query_seq(seq, q):
+    k = q['q']
+    if k == 'len':
+        return len(seq)
+    if k == 'eq':
+        r = seq == q['t']
+        assert isinstance(r, bool) and (seq != q['t']) == (not r)
+        return r
+    if k in QSEARCH:
+        return getattr(seq.str, k)(q['t'], *_bounds(q))
+    if k in ('isupper', 'islower'):
+        return getattr(seq.str, k)()
+    if k == 'gc':
+        pair = _gc_pair(seq.data)
+        g = seq.gc
+        assert (g == pair[0] / pair[1]) if pair[1] else g == 0, 'gc is not GC / (GC + AT) of the residues'
+        return pair
+    if k == 'countall':
+        return _count_obs(seq)
+    raise KeyError(k)
+
+
+def _query_str(cur, q):
+    k = q['q']
+    if k == 'len':
+        return len(cur)
+    if k == 'eq':
+        return cur == q['t']
+    if k in QSEARCH:
+        return getattr(cur, k)(q['t'], *_bounds(q))
+    if k in ('isupper', 'islower'):
+        return getattr(cur, k)()
+    if k == 'gc':
+        return _gc_pair(cur)
+    if k == 'countall':
+        return [sorted([ch, cur.count(ch)] for ch in set(cur)), len(cur)]
+    raise KeyError(k)
+
+
+def _fhex(x):
+    return x.hex() if isinstance(x, float) else x
+
+
+def _battery_seq(o, probes):
+    """Every query of the .str namespace, len, ==, str(), gc, countall on a real BioSeq."""
+    out = [len(o), str(o), o.str.isupper(), o.str.islower(), o.str.isalpha(), o.str.isascii(), o.str.encode(),
+           o.str.split('-'), o.str.rsplit('g', 1), o.str.split(), o.str.splitlines(), _fhex(o.gc),
+           sorted([k, v] for k, v in o.countall().items()),
+           sorted([k, _fhex(v)] for k, v in o.countall(rtype='prob').items()) if len(o) else None,
+           # indexing goes through the constructor (which upper-cases): compared up to case, from the object's OWN residues
+           str(o[1:4]).upper(), str(o[::-1]).upper(), str(o[-2:]).upper(), _try(lambda: str(o[0]).upper()), _try(lambda: str(o[-1]).upper())]
+    for p in probes:
+        out.append([o.str.count(p), o.str.find(p), o.str.rfind(p), _try(lambda: o.str.index(p)), _try(lambda: o.str.rindex(p)),
+                    o.str.startswith(p), o.str.endswith(p), o.str.count(p, 1, -1), o.str.find(p, 2), o.str.endswith(p, 0, -1),
+                    o == p, o != p])
+    return out
+
+
+def _battery_str(c, probes):
+    """The same questions asked of the plain residue string."""
+    GC, tot = _gc_pair(c)
+    out = [len(c), c, c.isupper(), c.islower(), c.isalpha(), c.isascii(), c.encode().decode('latin-1'),
+           c.split('-'), c.rsplit('g', 1), c.split(), c.splitlines(), _fhex(GC / tot if tot else 0),
+           sorted([ch, c.count(ch)] for ch in set(c)),
+           sorted([ch, _fhex(c.count(ch) / len(c))] for ch in set(c)) if len(c) else None,
+           c[1:4].upper(), c[::-1].upper(), c[-2:].upper(), _try(lambda: c[0].upper()), _try(lambda: c[-1].upper())]
+    for p in probes:
+        out.append([c.count(p), c.find(p), c.rfind(p), _try(lambda: c.index(p)), _try(lambda: c.rindex(p)),
+                    c.startswith(p), c.endswith(p), c.count(p, 1, -1), c.find(p, 2), c.endswith(p, 0, -1),
+                    c == p, c != p])
+    return out
+
+
+def _duplicate(objs, k, how):
+    import copy, pickle
+    from sugar import BioBasket
+    src = objs[k]
+    if how == 'copy':
+        return copy.copy(src)
+    if how == 'deepcopy':
+        return copy.deepcopy(src)
+    if how == 'method':
+        return src.copy()
+    if how == 'pickle':
+        return pickle.loads(pickle.dumps(src))
+    if how == 'basket':
+        return BioBasket(objs).copy()[k]
+    raise KeyError(how)
+
+
+# transforming .str methods tried on every object at the end of a history (the object is restored through .data)
+SWEEP = [('lower', ()), ('upper', ()), ('swapcase', ()), ('replace', ('G', 'n')), ('replace', ('a', 'TT', 1)), ('center', (9, '-')),
+         ('ljust', (7, 'n')), ('rjust', (7,)), ('strip', ('A-',)), ('lstrip', ('ac',)), ('rstrip', ()), ('removeprefix', ('AC',)),
+         ('removesuffix', ('t',)), ('translate', ({ord('A'): 't', ord('g'): None},))]
+
+
+def _sweep(objs):
+    for k, o in enumerate(objs):
+        for name, args in SWEEP:
+            saved = [x.data for x in objs]
+            exp = getattr(saved[k], name)(*args)
+            ret = getattr(o.str, name)(*args)
+            now = [x.data for x in objs]
+            o.data = saved[k]
+            if ret is not o:
+                return 'object %d: .str.%s%r does not return the sequence it was called on' % (k, name, args)
+            want = saved[:k] + [exp] + saved[k + 1:]
+            if now != want:
+                return 'object %d: .str.%s%r: objects hold %r, str gives %r' % (k, name, args, now, want)
+    return None
+
+
+def _run_store(case):
+    """A history over several BioSeq objects addressed by handle; duplicates made by copy.copy / copy.deepcopy /
+    BioSeq.copy / pickle / BioBasket.copy are appended.  After every step: the observation, the (data, id) of EVERY
+    object and (Python only) the query battery of every object."""
+    from sugar import BioSeq, BioBasket
+    objs = [BioSeq(d, id='o%d' % k) for k, d in enumerate(case['ss'])]
+    probes = case.get('probes') or []
+    out = []
+    last = len(case['steps']) - 1
+    for n, h in enumerate(case['steps']):
+        k = h['k']
+        obs = None
+        notes = []
+        try:
+            if k in ('dup', 'edit', 'query', 'eqobj') and not 0 <= h['o'] < len(objs):
+                raise IndexError('no such object')
+            if k == 'dup':
+                src = objs[h['o']]
+                dup = _duplicate(objs, h['o'], h['how'])
+                if dup is src or type(dup) is not type(src):
+                    notes.append('duplicate (%s) is not a new BioSeq' % h['how'])
+                if not (dup == src and src == dup):
+                    notes.append('duplicate (%s) does not compare equal to its source' % h['how'])
+                objs.append(dup)
+            elif k == 'edit':
+                _apply_edit(objs[h['o']], h['e'])
+            elif k == 'query':
+                obs = _query_seq(objs[h['o']], h['q'])
+            elif k == 'eqobj':
+                if not 0 <= h['j'] < len(objs):
+                    raise IndexError('no such object')
+                obs = objs[h['o']] == objs[h['j']]
+                assert isinstance(obs, bool)
+            elif k == 'alledit':
+                seqs = BioBasket(objs)
+                assert all(x is y for x, y in zip(seqs, objs))
+                e = h['e']
+                if e['e'] == 'set':
+                    seqs[:, py_ix(e['ix'])] = e['v']
+                elif e['e'] == 'reverse':
+                    assert seqs.reverse() is seqs
+                else:
+                    name, args = _edit_call(e)
+                    r = getattr(seqs.str, name)(*args)
+                    assert r is seqs or (isinstance(r, list) and all(x is y for x, y in zip(r, objs)))
+            elif k == 'countall':
+                bk = BioBasket(objs)
+                obs = _count_obs(bk)
+                cnt, prob = bk.countall(), bk.countall(rtype='prob')
+                assert set(prob) == set(cnt) and all(prob[c] == cnt[c] / obs[1] for c in cnt), 'countall(rtype="prob") is not count / total'
+            else:
+                raise KeyError(k)
+        except ERRS as e:
+            obs = _exc(e)
+        except AssertionError as e:
+            notes.append(str(e) or 'assertion failed')
+        extra = {}
+        if case.get('battery'):
+            extra['bat'] = [_try(lambda o=o: _battery_seq(o, probes)) for o in objs]
+        if n == last and case.get('sweep'):
+            m = _try(lambda: _sweep(objs))
+            if m:
+                notes.append(m if isinstance(m, str) else 'sweep raised %s' % m['e'])
+        if notes:
+            extra['notes'] = notes
+        out.append([obs, [_seq(o) for o in objs], extra])
+    return out
+
+
+def _spec_store(case, got):
+    """The same history on a plain list of Python strs (handles index the list; a duplicate is the same str again)."""
+    if isinstance(got, dict):
+        return 'history raised %s' % got['e']
+    cur = [d.upper() for d in case['ss']]
+    ids = ['o%d' % k for k in range(len(cur))]
+    probes = case.get('probes') or []
+    for n, (h, g) in enumerate(zip(case['steps'], got)):
+        k = h['k']
+        obs, state, extra = g
+        where = 'step %d (%s): ' % (n, json.dumps(h))
+        exp = None
+        if k in ('dup', 'edit', 'query', 'eqobj') and not 0 <= h['o'] < len(cur) or k == 'eqobj' and not 0 <= h['j'] < len(cur):
+            exp = {'e': 'IndexError'}
+        elif k == 'dup':
+            cur = cur + [cur[h['o']]]
+            ids = ids + [ids[h['o']]]
+        elif k == 'edit':
+            r = _try(lambda: _edit_str(cur[h['o']], h['e']))
+            if isinstance(r, dict):
+                exp = r
+            else:
+                cur = cur[:h['o']] + [r] + cur[h['o'] + 1:]
+        elif k == 'query':
+            exp = _try(lambda: _query_str(cur[h['o']], h['q']))
+        elif k == 'eqobj':
+            exp = cur[h['o']] == cur[h['j']] and ids[h['o']] == ids[h['j']]
+        elif k == 'alledit':
+            new = list(cur)
+            for i in range(len(new)):                      # in order; earlier ones stay edited when a later one raises
+                r = _try(lambda: _edit_str(new[i], h['e']))
+                if isinstance(r, dict):
+                    exp = r
+                    break
+                new[i] = r
+            cur = new
+        elif k == 'countall':
+            if not cur:
+                exp = obs
+            else:
+                allres = ''.join(cur)
+                exp = [sorted([ch, allres.count(ch)] for ch in set(allres)), len(allres)]
+        if extra.get('notes'):
+            return where + '; '.join(extra['notes'])
+        if obs != exp:
+            return where + 'str gives %r, BioSeq %r' % (exp, obs)
+        want = [[c, i] for c, i in zip(cur, ids)]
+        if state != want:
+            return where + 'the objects hold %r, the str history gives %r' % (state, want)
+        if 'bat' in extra:
+            for j, (c, b) in enumerate(zip(cur, extra['bat'])):
+                e = _battery_str(c, probes)
+                if b != e:
+                    if isinstance(b, dict):
+                        return where + 'queries on object %d (%r) raised %s' % (j, c, b['e'])
+                    d = next(i for i in range(len(e)) if b[i] != e[i])
+                    return where + 'object %d holds %r but answers query %d of the battery with %r, str gives %r' % (j, c, d, b[d], e[d])
+    return None
+
+
+# ----------------------------------------------------------------------------- seq['feature type']
+
+def _mk_fts(fts, seqid):
+    from sugar import Feature
+    return [Feature(t, start=a, stop=b, meta={'seqid': seqid}) for t, a, b in fts]
+
+
+def _run_ft(case):
+    from sugar import BioSeq, BioBasket
+    if case['op'] == 'ft':
+        seq = BioSeq(case['s'], id='x')
+        seq.fts = _mk_fts(case['fts'], 'x')
+        before = seq.data
+        r = _sub(seq, case['gap'])[case['name']]
+        assert isinstance(r, BioSeq) and r is not seq and seq.data == before
+        return _seq(r)
+    b = _mkbasket(case['b'])
+    for x in b:
+        x.fts = _mk_fts(case['fts'], x.id)
+    r = _sub(b, case['gap'])[:, case['name']]
+    assert isinstance(r, BioBasket) and r is not b
+    r2 = _sub(b, case['gap'])[case['name']]                     # seqs['type'] is seqs[:, 'type']
+    assert [_seq(x) for x in r2] == [_seq(x) for x in r], 'seqs[name] differs from seqs[:, name]'
+    for k in range(len(b)):
+        assert _seq(_sub(b, case['gap'])[k, case['name']]) == _seq(r[k]), 'seqs[i, name] differs from seqs[:, name][i]'
+    return [_seq(x) for x in r]
+
+
+def _spec_ft(case, got):
+    """First feature whose type EQUALS the name (case-insensitively); its residues are the str slice."""
+    name = case['name']
+    hit = next(((a, b) for t, a, b in case['fts'] if t is not None and t.lower() == name.lower()), None)
+    strs = [case['s'].upper()] if case['op'] == 'ft' else [d.upper() for d in case['b']]
+    if hit is None:
+        exp_err = {'e': 'ValueError'} if strs else None
+        if exp_err is None:
+            return None if got == [] else 'empty basket'
+        return None if got == exp_err else 'no feature of type %r: expected ValueError, got %r' % (name, got)
+    if isinstance(got, dict):
+        return 'feature of type %r exists at %r but indexing raised %s' % (name, hit, got['e'])
+    gots = [got] if case['op'] == 'ft' else got
+    if len(gots) != len(strs):
+        return 'wrong number of sequences'
+    ids = ['x'] if case['op'] == 'ft' else ['s%d' % k for k in range(len(strs))]
+    for d, g, i in zip(strs, gots, ids):
+        if g[1] != i:
+            return 'id lost'
+        m = _cmp_get(d, case['gap'], {'a': hit[0], 'b': hit[1], 'c': None}, g[0])
+        if m:
+            return 'seq[%r] must be the str slice [%d:%d] of the first feature of that type: %s' % (name, hit[0], hit[1], m)
+    return None
+
+
 # ----------------------------------------------------------------------------- evidence helpers
 
 def _ix_marks(ix, n):
@@ -958,6 +1444,13 @@ def nontrivial(case, got):
         marks.add('box')
     elif op == 'hist':
         marks.add('hist')
+    elif op == 'store':
+        marks.add('store')
+        marks |= set('dup:' + h['how'] for h in case['steps'] if h['k'] == 'dup')
+    elif op == 'ft':
+        marks.add('ft')
+    elif op == 'strbox':
+        marks.add('strbox')
     elif op == 'eqval':
         marks.add('eq:' + case['o']['t'])
     elif op in ('set',):
@@ -983,6 +1476,13 @@ def histkey(case, got):
     if 'steps' in case and case['op'] in ('hist', 'bhist'):
         ks.append('history_steps=%d' % len(case['steps']))
         ks += ['%s:%s' % (case['op'], k) for k in sorted(set(h['k'] for h in case['steps']))]
+    if case['op'] == 'store':
+        ks.append('store_steps=%d' % len(case['steps']))
+        for h in case['steps']:
+            ks.append('store:' + h['k'] + (':' + h['how'] if h['k'] == 'dup' else ':' + h['e']['e'] if 'e' in h else ':' + h['q']['q'] if 'q' in h else ''))
+        ks = sorted(set(ks))
+    if case['op'] in ('ft', 'bft'):
+        ks.append('ft_types=%d' % len(case['fts']))
     if case.get('gap') is not None:
         ks.append('gap')
     if isinstance(got, dict):
@@ -1018,6 +1518,12 @@ def _plain(case):
     if op in ('add', 'radd', 'iadd'):
         return {'add': 'BioSeq(%r) + %r', 'radd': '%r + BioSeq(%r)', 'iadd': 's = BioSeq(%r); s += %r'}[op] % (
             (case['s'], case['t']) if op != 'radd' else (case['t'], case['s']))
+    if op == 'store':
+        return _plain_store(case)
+    if op in ('ft', 'bft'):
+        tgt = 'BioSeq(%r, id="x")' % case['s'] if op == 'ft' else 'BioBasket([BioSeq(d) for d in %r])' % (case['b'],)
+        return 'x = %s; x.fts = [Feature(t, start=a, stop=b) for t, a, b in %r]; x%s[%s%r]' % (
+            tgt, case['fts'], g, ':, ' if op == 'bft' else '', case['name'])
     if op.startswith('b'):
         idx = {'bgeti': lambda: '[%d]' % case['i'], 'bgetsl': lambda: '[%s]' % _ixs(case['sl']),
                'bgetij': lambda: '%s[%d, %s]' % (g, case['i'], _ixs(case['j'])),
@@ -1028,6 +1534,44 @@ def _plain(case):
                'bsetij': lambda: '[%d, %s] = %r' % (case['i'], _ixs(case['j']), case['v'])}[op]()
         return 'b = BioBasket([BioSeq(d) for d in %r]); b%s' % (case['b'], idx)
     return json.dumps(case)
+
+
+def _plain_store(case):
+    out = ['o = [BioSeq(d) for d in %r]' % (case['ss'],)]
+    for h in case['steps']:
+        k = h['k']
+        if k == 'dup':
+            out.append('o.append(%s)' % {'copy': 'copy.copy(o[%d])', 'deepcopy': 'copy.deepcopy(o[%d])', 'method': 'o[%d].copy()',
+                                        'pickle': 'pickle.loads(pickle.dumps(o[%d]))', 'basket': 'BioBasket(o).copy()[%d]'}[h['how']] % h['o'])
+        elif k in ('edit', 'alledit'):
+            tgt = 'o[%d]' % h['o'] if k == 'edit' else 'BioBasket(o)'
+            e = h['e']
+            if e['e'] == 'set':
+                out.append('%s[%s%s] = %r' % (tgt, ':, ' if k == 'alledit' else '', _ixs(e['ix']), e['v']))
+            elif e['e'] == 'iadd':
+                out.append('%s += %r' % (tgt, e['t']))
+            elif e['e'] == 'data':
+                out.append('%s.data = %r' % (tgt, e['d']))
+            elif e['e'] == 'reverse':
+                out.append('%s.reverse()' % tgt)
+            else:
+                name, args = _edit_call(e)
+                out.append('%s.str.%s(%s)' % (tgt, name, ', '.join(repr(a) for a in args)))
+        elif k == 'query':
+            q = h['q']
+            if q['q'] in QSEARCH:
+                out.append('o[%d].str.%s(%s)' % (h['o'], q['q'], ', '.join(repr(a) for a in (q['t'],) + _bounds(q))))
+            elif q['q'] == 'eq':
+                out.append('o[%d] == %r' % (h['o'], q['t']))
+            elif q['q'] in ('isupper', 'islower'):
+                out.append('o[%d].str.%s()' % (h['o'], q['q']))
+            else:
+                out.append({'len': 'len(o[%d])', 'gc': 'o[%d].gc', 'countall': 'o[%d].countall()'}[q['q']] % h['o'])
+        elif k == 'eqobj':
+            out.append('o[%d] == o[%d]' % (h['o'], h['j']))
+        elif k == 'countall':
+            out.append('BioBasket(o).countall()')
+    return '; '.join(out)
 
 
 def _ixs(ix):
@@ -1179,6 +1723,22 @@ def gen_cases(rng, tier):
         cases.append(_gen_hist(rng))
     for _ in range(300 * (4 if thorough else 1)):
         cases.append(_gen_bhist(rng))
+    # --- object stores: duplicates (copy.copy, deepcopy, .copy(), pickle, basket.copy()) between edits that leave lower case
+    cases += _directed_stores()
+    for _ in range(260 * (12 if thorough else 1)):
+        cases.append(_gen_store(rng))
+    # --- the .str methods that are modelled as list functions: single calls on raw data, and start/end boxes
+    for _ in range(150 * (12 if thorough else 1)):
+        cases.append(_gen_strcalls(rng))
+    small = [''.join(t) for n in range(0, 4) for t in itertools.product('Aa-', repeat=n)]
+    subs = [''.join(t) for n in range(0, 3) for t in itertools.product('Aa-', repeat=n)]
+    pairs = [(d, t) for d in small for t in subs]
+    for d, t in (pairs if thorough else rng.sample(pairs, 40)):
+        cases.append(_box_strcalls(d, t))
+    # --- seq['feature type'] with types that contain one another
+    cases += _directed_ft()
+    for _ in range(140 * (10 if thorough else 1)):
+        cases.append(_gen_ft(rng))
     return cases
 
 
@@ -1343,6 +1903,219 @@ def _gen_bhist(rng):
     return {'op': 'bhist', 'b': b, 'x': x, 'steps': [_rbstep(rng, nb, m) for _ in range(rng.choice([3, 4, 6, 8]))]}
 
 
+# ----------------------------------------------------------------------------- object stores (duplicates) and feature types
+
+MIXED = 'ACGTacgtnN-'
+
+
+def _redit(rng, n):
+    r = rng.random()
+    if r < 0.22:
+        ix = _rix(rng, n)
+        v = _rs(rng, rng.choice([0, 1, 1, 2, 3]), MIXED)
+        if isinstance(ix, dict) and ix['c'] not in (None, 1, 0) and rng.random() < 0.7:
+            v = _rs(rng, len(range(n)[py_ix(ix)]), 'acgtN-')
+        return {'e': 'set', 'ix': ix, 'v': v}
+    if r < 0.30:
+        return {'e': 'iadd', 't': _rs(rng, rng.choice([0, 1, 3]), MIXED)}
+    if r < 0.34:
+        return {'e': 'data', 'd': _rs(rng, rng.choice([0, n, n + 1]), MIXED)}
+    if r < 0.38:
+        return {'e': 'reverse'}
+    if r < 0.46:
+        return {'e': 'trans', 'm': rng.choice([[['A', 'a'], ['c', 'C']], [['G', 'n'], ['-', 'g']], [['a', 't'], ['t', 'a']], []])}
+    if r < 0.62:
+        return {'e': rng.choice(['lower', 'lower', 'upper', 'swapcase', 'swapcase'])}
+    if r < 0.76:
+        old = rng.choice(['A', 'a', 'G', 'g', '-', 'AC', 'ac', 'gt', 'Gt', '', 'nn', 'AA'])
+        new = rng.choice(['n', 'N', 'a', '', 'tt', 'G', 'gA', '-'])
+        return {'e': 'replace', 'old': old, 'new': new, 'cnt': rng.choice([None, None, -1, 0, 1, 2, 5])}
+    if r < 0.88:
+        return {'e': rng.choice(['center', 'ljust', 'rjust']), 'w': rng.choice([0, n, n + 1, n + 2, n + 3, n + 4, n - 1, -2]),
+                'f': rng.choice([None, 'n', 'n', 'a', '-', 'N', ' '])}
+    return {'e': rng.choice(['strip', 'lstrip', 'rstrip']), 'cs': rng.choice([None, 'a', 'A', 'Aa', 'n-', 'acgt', '', ' n'])}
+
+
+def _rquery(rng, pool, n):
+    r = rng.random()
+    if r < 0.08:
+        return {'q': 'len'}
+    if r < 0.18:
+        return {'q': 'eq', 't': rng.choice(pool + [rng.choice(pool).upper(), rng.choice(pool).lower()])}
+    if r < 0.78:
+        d = rng.choice(pool)
+        if d and rng.random() < 0.7:
+            i = rng.randrange(len(d))
+            t = d[i:i + rng.choice([1, 1, 2, 3])]
+            if rng.random() < 0.25:
+                t = t.swapcase()
+        else:
+            t = rng.choice(['', 'g', 'G', 'gt', 'nn', 'Ac'])
+        bd = lambda: rng.choice([None, None, None, 0, 1, -1, 2, n, n + 1, n + 3, -n, -n - 2, rng.randint(-n - 1, n + 1)])
+        return {'q': rng.choice(sorted(QSEARCH)), 't': t, 'a': bd(), 'b': bd()}
+    return {'q': rng.choice(['isupper', 'islower', 'gc', 'gc', 'countall'])}
+
+
+def _gen_store(rng):
+    n = rng.choice([3, 4, 5, 6, 8])
+    ss = [_rs(rng, rng.choice([n, n, n - 1, 0]), 'ACGTN-' if rng.random() < 0.8 else MIXED) for _ in range(rng.choice([1, 1, 2, 3]))]
+    steps = []
+    nobj = len(ss)
+    pool = list(ss)
+    shape = rng.random()
+
+    def handle():
+        return rng.randrange(nobj)
+
+    def edit_step():
+        e = _redit(rng, n)
+        for key in ('v', 't', 'd', 'new'):
+            if e.get(key):
+                pool.append(e[key])
+        if rng.random() < 0.12 and e['e'] not in ('iadd', 'data'):
+            return {'k': 'alledit', 'e': e}
+        return {'k': 'edit', 'o': handle(), 'e': e}
+
+    def dup_step():
+        return {'k': 'dup', 'o': handle(), 'how': rng.choice(DUPS)}
+    if shape < 0.45:
+        # lower case first (behind the constructor's back), duplicate, then look / edit one side
+        steps.append(edit_step())
+        if rng.random() < 0.5:
+            steps.append({'k': 'query', 'o': handle(), 'q': _rquery(rng, pool, n)})
+        steps.append(dup_step())
+        nobj += 1
+        for _ in range(rng.choice([1, 2, 3])):
+            steps.append(edit_step() if rng.random() < 0.6 else {'k': 'query', 'o': handle(), 'q': _rquery(rng, pool, n)})
+        if rng.random() < 0.4:
+            steps.append(dup_step())
+            nobj += 1
+            steps.append(edit_step())
+        steps.append({'k': 'eqobj', 'o': handle(), 'j': handle()})
+    else:
+        for _ in range(rng.choice([3, 4, 6, 8])):
+            r = rng.random()
+            if r < 0.22 and nobj < 6:
+                steps.append(dup_step())
+                nobj += 1
+            elif r < 0.62:
+                steps.append(edit_step())
+            elif r < 0.9:
+                steps.append({'k': 'query', 'o': handle(), 'q': _rquery(rng, pool, n)})
+            elif r < 0.96:
+                steps.append({'k': 'eqobj', 'o': handle(), 'j': handle()})
+            else:
+                steps.append({'k': 'countall'})
+    probes = sorted(set([rng.choice(['G', 'g', 'a', 'C']), rng.choice(['gt', 'AC', 'nn', 'Cg', '']), rng.choice(pool)[:3]]))
+    return {'op': 'store', 'ss': ss, 'steps': steps, 'probes': probes, 'battery': rng.random() < 0.8, 'sweep': rng.random() < 0.35}
+
+
+def _directed_stores():
+    """The shapes the stream is about, once each: edit that leaves lower case / touch .str / duplicate (every way) /
+    edit the duplicate / edit the original / compare."""
+    out = []
+    first = [{'e': 'set', 'ix': {'a': 2, 'b': 5, 'c': None}, 'v': 'gtt'}, {'e': 'lower'}, {'e': 'swapcase'},
+             {'e': 'replace', 'old': 'G', 'new': 'n', 'cnt': None}, {'e': 'center', 'w': 12, 'f': 'n'}, {'e': 'ljust', 'w': 10, 'f': 'a'}]
+    for n, how in enumerate(DUPS):
+        e = first[n % len(first)]
+        out.append({'op': 'store', 'ss': ['ACGTTGCA'], 'probes': ['G', 'g', 'CC', 'tt'], 'battery': True, 'sweep': True, 'steps': [
+            {'k': 'edit', 'o': 0, 'e': e},
+            {'k': 'query', 'o': 0, 'q': {'q': 'gc'}},
+            {'k': 'dup', 'o': 0, 'how': how},
+            {'k': 'eqobj', 'o': 0, 'j': 1},
+            {'k': 'edit', 'o': 1, 'e': {'e': 'set', 'ix': {'a': 0, 'b': 4, 'c': None}, 'v': 'GGcc'}},
+            {'k': 'query', 'o': 1, 'q': {'q': 'count', 't': 'G', 'a': None, 'b': None}},
+            {'k': 'query', 'o': 1, 'q': {'q': 'find', 't': 'cc', 'a': None, 'b': None}},
+            {'k': 'edit', 'o': 1, 'e': {'e': 'replace', 'old': 'G', 'new': 'N', 'cnt': None}},
+            {'k': 'edit', 'o': 0, 'e': {'e': 'swapcase'}},
+            {'k': 'query', 'o': 1, 'q': {'q': 'gc'}},
+            {'k': 'query', 'o': 0, 'q': {'q': 'islower'}},
+            {'k': 'eqobj', 'o': 0, 'j': 1}]})
+        out.append({'op': 'store', 'ss': ['ACGT', 'TTGA'], 'probes': ['n', 'T'], 'battery': True, 'sweep': False, 'steps': [
+            {'k': 'alledit', 'e': {'e': 'set', 'ix': {'a': 1, 'b': 3, 'c': None}, 'v': 'nn'}},
+            {'k': 'dup', 'o': 1, 'how': how},
+            {'k': 'dup', 'o': 2, 'how': DUPS[(n + 1) % len(DUPS)]},
+            {'k': 'alledit', 'e': {'e': 'swapcase'}},
+            {'k': 'edit', 'o': 3, 'e': {'e': 'iadd', 't': 'acg'}},
+            {'k': 'countall'},
+            {'k': 'eqobj', 'o': 2, 'j': 3}, {'k': 'eqobj', 'o': 1, 'j': 2}]})
+    return out
+
+
+SBOUNDS = [None] + list(range(-4, 5))
+
+
+def _box_strcalls(d, t):
+    """Every (start, end) in {None,-4..4}^2 for each of the seven search methods on one small string."""
+    return {'op': 'strbox', 'd': d, 't': t, 'bounds': SBOUNDS}
+
+
+def _gen_strcalls(rng):
+    d = rng.choice([_rs(rng, rng.choice([0, 1, 2, 4, 7, 10]), 'ACGTacgt-n'), _rs(rng, rng.choice([3, 6]), 'Aa- '),
+                    ' \t' + _rs(rng, 4, 'ACgt') + '\n ', '--' + _rs(rng, 3, 'AC-') + '--', _rs(rng, 8, 'AAaC')])
+    n = len(d)
+    steps = [{'k': 'edit', 'o': 0, 'e': {'e': 'data', 'd': d}}]
+    pool = [d]
+    for _ in range(rng.choice([3, 5, 8])):
+        if rng.random() < 0.6:
+            steps.append({'k': 'query', 'o': 0, 'q': _rquery(rng, pool, n)})
+        else:
+            e = _redit(rng, n)
+            while e['e'] in ('set', 'iadd', 'data', 'reverse'):
+                e = _redit(rng, n)
+            if e['e'] == 'replace' and rng.random() < 0.5 and d:
+                i = rng.randrange(n)
+                e['old'] = d[i:i + rng.choice([1, 1, 2])]
+            steps.append({'k': 'edit', 'o': 0, 'e': e})
+            if rng.random() < 0.5:
+                steps.append({'k': 'edit', 'o': 0, 'e': {'e': 'data', 'd': d}})
+    return {'op': 'store', 'ss': [''], 'steps': steps, 'probes': [], 'battery': False, 'sweep': False}
+
+
+FT_TYPES = ['gene', 'pseudogene', 'RNA', 'mRNA', 'tRNA', 'ncRNA', 'exon', 'exon_junction', 'UTR', "5'UTR", '', 'CDS', 'cds', 'Gene',
+            None, 'region', 'reg', 'source', 'misc_RNA']
+
+
+def _gen_ft(rng):
+    s = _rs(rng, rng.choice([6, 12, 20, 30]), 'ACGT')
+    gap = rng.choice([None, None, '-'])
+    if gap:
+        s = ''.join(ch + ('-' * rng.choice([0, 0, 0, 1, 2])) for ch in s)
+    n = len(_degap(s, gap or ''))
+    k = rng.choice([1, 2, 3, 4, 5, 6])
+    types = [rng.choice(FT_TYPES) for _ in range(k)]
+    if rng.random() < 0.6:
+        types = [t if t is None or rng.random() < 0.7 else rng.choice([t.upper(), t.lower(), t.swapcase()]) for t in types]
+    fts = []
+    for t in types:
+        a = rng.randrange(n)
+        fts.append([t, a, rng.randint(a + 1, n + (2 if rng.random() < 0.1 else 0))])
+    r = rng.random()
+    present = [t for t in types if t is not None]
+    if r < 0.75 and present:
+        name = rng.choice(present)
+        name = rng.choice([name, name, name.lower(), name.upper(), name.swapcase()])
+    elif r < 0.9:
+        name = rng.choice([t for t in FT_TYPES if t is not None])
+    else:
+        name = rng.choice(['intron', 'ge', 'genes', 'rn', 'A', ' ', 'none'])
+    if rng.random() < 0.3:
+        return {'op': 'bft', 'b': [s] + [_rs(rng, n, 'ACGT') for _ in range(rng.choice([0, 1, 2]))], 'gap': gap, 'fts': fts, 'name': name}
+    return {'op': 'ft', 's': s, 'gap': gap, 'fts': fts, 'name': name}
+
+
+def _directed_ft():
+    s = 'ACGTTGCAAGGCTTAACCGG'
+    fts = [['gene', 0, 18], ['pseudogene', 4, 10], ['RNA', 1, 5], ['mRNA', 12, 20], ['', 2, 4], [None, 3, 5], ['exon', 5, 9], ['exon_junction', 7, 8]]
+    out = []
+    for name in ('gene', 'pseudogene', 'PseudoGene', 'rna', 'mRNA', 'mrna', 'tRNA', '', 'exon_junction', 'EXON', 'junction'):
+        for order in (fts, fts[::-1]):
+            out.append({'op': 'ft', 's': s, 'gap': None, 'fts': order, 'name': name})
+        out.append({'op': 'ft', 's': 'AC-GTT--GCAAG-GCTTAAC-CGG', 'gap': '-', 'fts': fts, 'name': name})
+        out.append({'op': 'bft', 'b': [s, s[::-1]], 'gap': None, 'fts': fts, 'name': name})
+    return out
+
+
 # ----------------------------------------------------------------------------- .str namespace, Python against Python
 
 def _str_args(rng, name, data):
@@ -1440,6 +2213,7 @@ def extra_checks(rng, tier, cov):
         yield _viol({'op': 'str', 'name': n}, 'method not in builtin str', '.str method %s has no str counterpart' % n)
     reps = 200 if tier == 'thorough' else 25
     ncalls = nid = nbasket = ndirected = 0
+    nsizes = {}
     for name in names:
         if not hasattr(str, name):
             continue
@@ -1516,10 +2290,33 @@ def extra_checks(rng, tier, cov):
             if whyb:
                 yield _viol(dict(case, basket=datas), repr(gotb)[:200], whyb)
                 break
+            # what KIND of result a basket-level method gives (the basket itself / the list of per-sequence results) is a
+            # matter of the method, not of the basket's contents: same kind for 0, 1 and several sequences, and a
+            # result that is the basket can be chained
+            if firsterr is None:
+                kinds = {len(datas): 'basket' if gotb is basket else 'list'}
+                for sub in ([], datas[:1]):
+                    if len(sub) in kinds:
+                        continue
+                    bsub = BioBasket([_raw(BioSeq, d) for d in sub], meta={'origin': 'test'})
+                    gsub = _try(lambda: getattr(bsub.str, name)(*wargs))
+                    kinds[len(sub)] = ('basket' if gsub is bsub else 'list' if isinstance(gsub, list) and len(gsub) == len(sub)
+                                       else 'raises ' + gsub['e'] if isinstance(gsub, dict) and set(gsub) == {'e'} else repr(gsub)[:60])
+                    nsizes[len(sub)] = nsizes.get(len(sub), 0) + 1
+                    want = [exps[0]] if (sub and isinstance(exps[0], str) and name != 'maketrans') else list(sub)
+                    if dict(bsub.meta) != {'origin': 'test'} or [x.data for x in bsub] != want:
+                        kinds[len(sub)] = 'basket changed: %r' % ([x.data for x in bsub],)
+                    elif gsub is bsub and _try(lambda: bsub.str.upper().str.swapcase()) is not bsub:
+                        kinds[len(sub)] = 'basket that cannot be chained'
+                if len(set(kinds.values())) != 1:
+                    yield _viol(dict(case, basket=datas), repr(kinds),
+                                'basket-level .str.%s: kind of result depends on the number of sequences: %r' % (name, kinds))
+                    break
     cov['str_wrapper_calls'] = ncalls
     cov['str_directed_argument_sets'] = ndirected
     cov['str_identity_checks'] = nid
     cov['str_basket_calls'] = nbasket
+    cov['str_basket_calls_empty_and_single'] = {str(k): v for k, v in sorted(nsizes.items())}
     if tier == 'thorough':
         cov['exhaustive'] = True
 
@@ -1534,7 +2331,7 @@ def _raw(BioSeq, data):
     return s
 
 
-LEVEL_TEXT = ('Machine-checked Coq theorems (32, all closed under the global context), for every list/str and every integer or None bound: '
+LEVEL_TEXT = ('Machine-checked Coq theorems (55, all closed under the global context), for every list/str and every integer or None bound: '
               'CPython slice normalisation (PySlice_AdjustIndices) yields firstn/skipn of the clamped bounds for contiguous slices, the '
               'slice-length formula and the element law r[k] = s[start + k*step] for every step, s[::-1] = rev s, s[:k] + s[k:] = s, the '
               'negative-index law; BioSeq indexing/slicing, len, +, +=, right + equal the str operation on the residue string; == against any '
@@ -1545,16 +2342,39 @@ LEVEL_TEXT = ('Machine-checked Coq theorems (32, all closed under the global con
               'int indexing the i-th residue; the .str wrappers return the str result / update in place (parametric in the method); '
               'BioBasket: seqs[i,j], seqs[a:b:c,j] compose the two axes, seqs[i,j] = x, seqs[a:b:c,j] = x assign on exactly the selected '
               'sequences (every first-axis slice), seqs[i] = x and seqs[a:b:c] = xs are list assignment of new sequences; letter counts, '
-              'totals, probabilities (sum 1) and GC content as exact rationals equal the character counts. The model is tied to sugar by '
+              'totals, probabilities (sum 1) and GC content as exact rationals equal the character counts. Round 6: the .str methods with '
+              'pure list semantics are Gallina list functions with proved characterisations (str_case: lower/upper/swapcase pointwise, '
+              'swapcase involutive; str_window: start/end select the Python slice s[a:b]; str_find: find/rfind = least/greatest offset, -1 iff '
+              'none; str_index; str_count: one letter = the letter count, "" = len+1, 0 iff find = -1; str_replace: letter-for-letter = map, '
+              'len law len + count*(len new - len old), identity when absent or count 0; str_strip; str_just: padding sides of center differ '
+              'by at most one; str_tailmatch; gc_through_str: BioSeq.gc counts through .str.count); edit_like_str / query_like_str: each of '
+              'the 15 modelled edits and 13 queries through the BioSeq code path is the str operation on the residue string; HISTORY '
+              'theorem store_history (induction over arbitrary step lists): after any history of edits, queries, duplications and '
+              'basket-level edits over a store of objects, the residue strings are the fold of the corresponding str/list operations and '
+              'ids follow duplication; store_frame / dup_independent: an object changes only through steps that address it, a duplicate '
+              'keeps the value its source had and vice versa; store_countall / store_probabilities; ft_first_exact: seq[type] takes the '
+              'FIRST feature whose type EQUALS the name up to ASCII case (hence of the same length, never a proper substring). '
+              'The model is tied to sugar by '
               'differential testing (exhaustive box over {A,C,-}^<=5 x {None,-7..7}^3 in the thorough tier, random cases, 600 multi-step '
-              'histories on shared objects in the quick tier) and the .str methods are compared against builtin str.')
+              'histories on shared objects and 270 object-store histories with duplicates in the quick tier) and the .str methods are '
+              'compared against builtin str.')
 LEVEL_NOTE = ('Trusted: Coq kernel/vm_compute, the correspondence harness, CPython str/list subscripting as modelled in C04_PySlice.v '
-              '(compared on every case), the ~29 str methods themselves (only the wrapping is proved; behaviour compared Python-against-'
-              'Python with directed and random arguments, return identity tested). Tested only: object identity (is seq / is basket), '
-              'absence of aliasing/state between calls (history stream), floats of gc/prob (driver recomputes the one IEEE division), '
-              'countall(rtype="df"). Modelled rather than verified: the seq.py functions in MODELLED_FUNCS; str restricted to ASCII; '
-              'metadata reduced to the id. Domain restrictions: gap-aware slicing only contiguous; seq + x only for x without lower case '
-              '(the constructor upper-cases, += does not). '
-              'Lines of modelled functions not reached because they belong to other properties: seq.py:219 (mapping '
-              'constructor, C14), 451-460 (feature/location indexing, C06), 480-487 (update_fts, C06), 853-854 (basket[str/feature], C06).')
+              '(compared on every case), the str methods themselves: 17 of them (count, find, rfind, index, rindex, startswith, endswith, '
+              'replace, lower, upper, swapcase, isupper, islower, strip, lstrip, rstrip, center, ljust, rjust, translate with a '
+              'character table) are now modelled as list functions on ASCII and compared with CPython on every case incl. start/end '
+              'boxes; for the others (split, rsplit, splitlines, encode, isalpha, isascii, removeprefix, removesuffix, maketrans) only '
+              'the wrapping is proved (behaviour compared Python-against-Python with directed and random arguments, return identity '
+              'tested). Tested only: object identity (is seq / is basket), that copy.copy / deepcopy / pickle / copy() really produce '
+              'independent Python objects (the model duplicates VALUES; the object-store stream compares every object after every step '
+              'and asks a battery of ~25 queries per object), '
+              'absence of aliasing/state between calls (history streams), floats of gc/prob (driver recomputes the one IEEE division), '
+              'countall(rtype="df"), the kind of result of basket-level .str methods (basket / list: both allowed by the property; '
+              'required to be independent of the number of sequences incl. zero, and chainable). Modelled rather than verified: the '
+              'seq.py functions in MODELLED_FUNCS; str restricted to ASCII; metadata reduced to the id; features reduced to (type, start, '
+              'stop) of one forward location (strands, several locations: C06). Domain restrictions: gap-aware slicing only contiguous; '
+              'seq + x only for x without lower case (the constructor upper-cases, += does not); indexing/slicing claimed for residues '
+              'without lower case (the slice goes through the constructor), which is why the object-store stream (lower case allowed) '
+              'has no slicing step; GC content counts upper-case G/C/A/T/U only (that is what str.count gives). '
+              'Lines of modelled functions not reached because they belong to other properties: seq.py:227 (mapping '
+              'constructor, C14), 464 (indexing with a Location object, C06), 488-495 (update_fts, C06).')
 TECHNIQUE = 'Coq proof over an executable Gallina model + differential correspondence (exhaustive small box, random) + Python-vs-str relational checks'
